@@ -11,6 +11,7 @@ def run(ctx):
     fb(ctx)
     enum(ctx)
     resolve_discipline(ctx)
+    attribute_scans(ctx)
 
 
 def fb(ctx):
@@ -368,3 +369,83 @@ def copy_implies_clone(ctx, f, d, tag):
         sets_cl = [(bi) for (bi, si, kind, payload, span) in f.defs()[cl[1]] if f.expr_of_def((bi, si, kind, payload, span)) == ('int', 1, 'bool')]
         ok = bool(sets_cp) and all(any(b == c or (f.dominates(b, c) and f.postdominates(c, b)) or (f.dominates(c, b) and f.postdominates(b, c)) for c in sets_cl) for b in sets_cp)
     ctx.ob(['C13', 'C17'], 'R-PAIR', '%s|copyable-implies-cloneable' % tag, ok, 'whenever copyable is set, cloneable is set on the same path (Copy requires Clone)', loc(f.span))
+
+
+# ------------------------------------------------------------------------------------------------
+def attribute_scans(ctx):
+    """every loop that scans an attribute list looks at every attribute: the only ways out of the loop are the end of the
+    list and an Err (an early `break` makes the meaning of an item depend on the order in which its attributes are written)"""
+    P = ctx.prog
+    n = 0
+    for f in P.fns.values():
+        if f.raw.get('derived') or f.id.startswith('parser::'):
+            continue
+        for L in f.loops():
+            h, body, latches = L
+            drv = None
+            for bi in sorted(body):
+                t = f.term(bi)
+                if t['k'] == 'Call' and t.get('callee') and t['callee']['path'].endswith('Iterator::next'):
+                    sty = t['callee'].get('self_ty') or (t['callee'].get('gargs') or ['?'])[0]
+                    if re.match(r"^std::slice::Iter<'_, grammar::Attribute>$", sty):
+                        drv = (bi, t)
+            if not drv:
+                continue
+            # innermost loop of this driver only
+            inner = innermost_loop(f, drv[0])
+            if inner is None or inner[0] != h:
+                continue
+            n += 1
+            nb, nt = drv
+            # the switch on the result of next()
+            sw = [s for s in f.switches() if s['block'] in body and s['cond'][0] == 'discr' and s['cond'][1] == f.expr_of_call(nt)]
+            none_edges = {(s['block'], tgt) for s in sw for lab, tgt in s['edges'] if lab == 'None'}
+            bad = []
+            for b in body:
+                for s_ in f.succ(b):
+                    if s_ in body or (b, s_) in none_edges:
+                        continue
+                    ks = f.exit_kinds_from(s_)
+                    if not ks and f.term(s_)['k'] == 'Unreachable':
+                        continue
+                    if not (ks and ks <= {'err_own', 'err_prop', 'diverge'}):
+                        bad.append(loc(f.term(b)['span']))
+            src = strip(f.expr_of_operand(nt['args'][0]))
+            what = sorted(set(fields_in(expand(f, src))))
+            key = '%s|%s' % (re.sub(r'\{closure#\d+\}', '{closure}', f.id), '+'.join(what)[:40] or 'attributes')
+            fid_ = f.id
+            if 'Attributes::doc' in fid_:
+                tags = ['C17']
+            elif 'enum_definition' in fid_:
+                tags = ['C08', 'C17', 'C15']
+            elif 'function::build' in fid_:
+                tags = ['C05', 'C16', 'C04']
+            elif 'vftable' in fid_:
+                tags = ['C04', 'C20']
+            elif 'add_module' in fid_:
+                tags = ['C15', 'C02']
+            elif 'type_definition::build' in fid_ and 'statements' in what:
+                tags = ['C01', 'C07', 'C20', 'C04']
+            elif 'type_definition::build' in fid_:
+                tags = ['C02', 'C03', 'C17', 'C15']
+            else:
+                tags = ['C17']
+            ctx.ob(tags, 'R-ITER', 'attribute-scan-complete|' + key, not bad,
+                   'the scan over the attribute list ends only at the end of the list or with an error' + ('' if not bad else ' — it can leave early at %s' % bad), loc(f.term(h)['span']))
+    ctx.ob(['C17'], 'R-ITER', 'attribute-scan-complete|census', n >= 8, 'attribute scanning loops examined: %d (floor 8)' % n, nontrivial=False)
+    # Attributes::doc joins all doc attributes in order
+    d = [f for f in P.fns.values() if f.id.endswith('grammar::Attributes::doc')]
+    if d:
+        f = d[0]
+        ps = [c for c in f.calls(lambda r: r['path'] and r['path'].endswith('String::push_str'))]
+        pc = [c for c in f.calls(lambda r: r['path'] and r['path'].endswith('String::push'))]
+        ok = len(ps) == 1 and len(pc) == 1
+        if ok:
+            v = f.expr_of_operand(ps[0]['term']['args'][1])
+            sep = f.expr_of_operand(pc[0]['term']['args'][1])
+            ok = bool(find_calls(v, 'string_literal')) and (sep == ('int', 10, 'char') or (sep[0] in ('const', 'str') and '\\n' in str(sep[1])))
+            L = innermost_loop(f, ps[0]['block'])
+            ok = ok and bool(L) and pc[0]['block'] in L[1]
+        keyc = [op.get('str') for bi in f.normal_blocks() for op in f.block_operands(bi) if op.get('k') == 'Const' and 'str' in op]
+        ok = ok and 'doc' in keyc
+        ctx.ob(['C17'], 'R-EXPR', 'DOC|joined-in-order', ok, 'Attributes::doc appends the string of every `doc = ".."` attribute in list order, separated by a newline', loc(f.span))
